@@ -43,19 +43,29 @@ Pairs(n) ==
           \* a small square strictly inside the polygon, under its top-left corner (not on the witness lattice: outside the lemma)
           <<P, Poly(SqRing(9, H(n) - 3, 2), <<>>), "212FF1FF2">> >>
 
+\* fixed pairs (emitted with size 4, so that the lemma covers them): shell 0..32, a triangular hole listed first whose bounding
+\* box covers the square hole, and partners lying in the square hole
+TwoHoles(first) == LET tri == << <<4, 4>>, <<4, 24>>, <<24, 4>>, <<4, 4>> >>  sq == << <<16, 16>>, <<16, 20>>, <<20, 20>>, <<20, 16>>, <<16, 16>> >> IN
+                   Poly(SqRing(0, 0, 32), IF first = "tri" THEN <<tri, sq>> ELSE <<sq, tri>>)
+Fixed == << <<TwoHoles("tri"), Pt(<<18, 18>>), "FF2FF10F2">>, <<Pt(<<18, 18>>), TwoHoles("tri"), "FF0FFF212">>,
+            <<TwoHoles("sq"), Pt(<<18, 18>>), "FF2FF10F2">>,
+            <<TwoHoles("tri"), Pt(<<16, 18>>), "FF20F1FF2">>,
+            <<TwoHoles("tri"), Ln(<<16, 16>>, <<20, 20>>), "FF2F011F2">>,
+            <<TwoHoles("tri"), Pt(<<8, 8>>), "FF2FF10F2">>, <<TwoHoles("tri"), Pt(<<12, 20>>), "0F2FF1FF2">> >>
 Mask(im) == [i |-> ImIntersects(im), c |-> ImContains(im), w |-> ImWithin(im)]
 Case(n, k) ==
-    LET t == Pairs(n)[k] IN
+    LET t == IF k > Len(Pairs(n)) THEN Fixed[k - Len(Pairs(n))] ELSE Pairs(n)[k] IN
     [op |-> "relate", id |-> <<n, k>>, a |-> t[1], b |-> t[2], im |-> t[3], noproper |-> FALSE, pred |-> Mask(t[3]), big |-> n]
 
 VARIABLES size, k
 vars == <<size, k>>
 Init == size \in Sizes /\ k = 0
-Next == /\ k = 0 /\ size' = size /\ k' \in 1 .. Len(Pairs(size))
+Next == /\ k = 0 /\ size' = size /\ k' \in 1 .. (Len(Pairs(size)) + (IF size = 4 THEN Len(Fixed) ELSE 0))
         /\ PrintT(<<"CASE", ToJson(Case(size, k'))>>)
 Spec == Init /\ [][Next]_vars
 
 \* the lemma: for n = 4 every constructed matrix is the point-set DE-9IM (lattice -1 .. 4 N + 1 with N = 8 covers 0 .. 32)
 F4 == FineOf(8)
-SmallAgrees == (size = 4 /\ k > 0 /\ k < Len(Pairs(4))) => LET t == Pairs(4)[k] IN DE9IM(t[1], t[2], F4) = t[3]
+SmallAgrees == /\ (size = 4 /\ k > 0 /\ k < Len(Pairs(4))) => LET t == Pairs(4)[k] IN DE9IM(t[1], t[2], F4) = t[3]
+               /\ (size = 4 /\ k > Len(Pairs(4))) => LET t == Fixed[k - Len(Pairs(4))] IN DE9IM(t[1], t[2], F4) = t[3]
 =============================================================================
